@@ -2345,8 +2345,10 @@ func layoutClass(lay string) string {
 	return "index-in-memory"
 }
 
-// runSchedules: phases of (writer program length, preemption bound), simplest first.
-func runSchedules(t *testing.T, c *vlib.Ctx) {
+// runSchedules: phases of (writer program length, preemption bound), simplest first. late = false: the phases run
+// before the sequence families; late = true: the phase with every Lock/RLock as a decision point (thorough only),
+// which runs last with whatever budget is left.
+func runSchedules(t *testing.T, c *vlib.Ctx, late bool) {
 	if os.Getenv("C13_ONLY") == "crash" || os.Getenv("C13_ONLY") == "seq" {
 		return
 	}
@@ -2358,7 +2360,13 @@ func runSchedules(t *testing.T, c *vlib.Ctx) {
 	}
 	phases := []phase{{2, 2, "wlocks"}}
 	if c.Thorough() {
-		phases = []phase{{1, 2, "wlocks"}, {2, 3, "wlocks"}, {3, 2, "wlocks"}, {2, 1, "locks"}}
+		phases = []phase{{1, 2, "wlocks"}, {2, 3, "wlocks"}, {3, 2, "wlocks"}}
+	}
+	if late {
+		phases = nil
+		if c.Thorough() {
+			phases = []phase{{2, 1, "locks"}}
+		}
 	}
 	for pi, ph := range phases {
 		scs := schedScenarios(ph.progLen, ph.points)
@@ -2439,7 +2447,7 @@ func TestCheck(t *testing.T) {
 			"(explicit-pair: length exactly 4 quick / 5 and 6 thorough) 6-op alphabet over the two keys sharing a partition {create K0, create K1, delete K0, delete K1, reopen, compact}; (auto-pair: length 3 / 4,5) the same without compact and with CompactThreshold=1. " +
 			"After EVERY step: returned ids judged by the model (same key -> same id; two occurrences in one call -> same id; distinct keys -> distinct ids; new or re-created key -> id never handed out before, non-zero), then SeriesID/HasSeries of every key of the domain (live -> its id; deleted or never created -> 0), SeriesKey(id) of every live id parses back to its key, IsDeleted false for live and true for deleted ids. After the last step the recovery checker: Close, Open, read all, create all op keys again in one call (live keep ids, others get never-used ids), read all; thorough additionally Close, Open, read all. " +
 			"State = canonical model state (per key never/live/deleted + number of incarnations) + file layout (per touched partition: on-disk index count, in-memory count, number of segments, index file present); transition = one executed op; trace = one complete history validated on the implementation. Non-trivial = histories that create at least one series (distinct by construction). " +
-			"SCHEDULE PART (engine vsched; both tiers, after the crash family): series file with CompactThreshold=1, so a creating call starts the partition's background index compaction (go Compact: segment snapshot under RLock, index rebuilt without a lock, swap + replay of the entries since the snapshot under Lock) and returns; ONE writer thread then runs every program of length 2 (quick; thorough: 1, 2 and 3) over {create K0, create K1, create {K0,K1}, delete K0, delete K1} (K0, K1 in one partition) from 3 initial contents {empty, K0, K0+K1} (index compacted), nothing awaited between its calls; tsdb/series_partition.go is compiled against the modelled sync and EVERY schedule with <= 2 preemptions (thorough: 2 / 3 / 2) is executed at the decision points = every write Lock of the partition, the compactor's snapshot RLock and the writer's op boundaries (thorough additionally: programs of length 2 with <= 1 preemption at every Lock and RLock, i.e. also the 8 per-partition lookups of every call). When the writer has finished the scheduler is drained, compactions are awaited, the returned ids are judged by the model, SeriesID/HasSeries/SeriesKey/IsDeleted of every key and id are compared exactly, every key is created once more (live keep ids, others get never-used ids) and compared again (no reopen: a reopen re-reads the segments). Deadlock and step cap are violations. For this part states = decision nodes of the schedule trees, transitions = scheduling steps, traces = executions; non-trivial = executions with >= 1 preemption. " +
+			"SCHEDULE PART (engine vsched; both tiers, after the crash family): series file with CompactThreshold=1, so a creating call starts the partition's background index compaction (go Compact: segment snapshot under RLock, index rebuilt without a lock, swap + replay of the entries since the snapshot under Lock) and returns; ONE writer thread then runs every program of length 2 (quick; thorough: 1, 2 and 3) over {create K0, create K1, create {K0,K1}, delete K0, delete K1} (K0, K1 in one partition) from 3 initial contents {empty, K0, K0+K1} (index compacted), nothing awaited between its calls; tsdb/series_partition.go is compiled against the modelled sync and EVERY schedule with <= 2 preemptions (thorough: 2 / 3 / 2) is executed at the decision points = every write Lock of the partition, the compactor's snapshot RLock and the writer's op boundaries (thorough additionally, after the sequence families with the budget they leave: programs of length 2 with <= 1 preemption at every Lock and RLock, i.e. also the 8 per-partition lookups of every call). When the writer has finished the scheduler is drained, compactions are awaited, the returned ids are judged by the model, SeriesID/HasSeries/SeriesKey/IsDeleted of every key and id are compared exactly, every key is created once more (live keep ids, others get never-used ids) and compared again (no reopen: a reopen re-reads the segments). Deadlock and step cap are violations. For this part states = decision nodes of the schedule trees, transitions = scheduling steps, traces = executions; non-trivial = executions with >= 1 preemption. " +
 			"CRASH FAMILY (additional clause, engine crashfs; counted under the crash_* coverage keys and the crash:* outcomes, not under states/transitions/traces): histories performed by a writer subprocess (PerformHistory on the real SeriesFile, GOMAXPROCS=1) under strace with BEGIN/ACK markers around the initial Open of the empty directory and every op; the process exits without closing. Quick: 5 hand-picked histories, every cut (open-create-batch: initial Open of 8 partitions, single create, create of a live + a new key of one partition, batch over 3 partitions with a repeat; delete-recreate: 8 ops with tombstones, re-creation, reopen, delete of a deleted id; id-byte-boundary: 32 series in partition 7 (ids 8..0x100) acknowledged in one call, then create (id 0x108), delete of it, create of two, delete of id 0x100, re-creation — cuts from op 1 on; compact: explicit index compaction of one partition twice (index.compacting written, fsynced, renamed over index) with live, deleted and later entries; auto-compact: CompactThreshold=1, background compaction inside the creating call), split into 10 work items by op window (each item re-records the history and evaluates the cuts of its ops only). Thorough: longer versions of these (one work item per op), the whole 32-entry prefill write of id-byte-boundary, compaction of all 8 partitions, a segment-roll history (64 keys of 65 KB fill segment 0000; big key A rolls to 0001, short key, delete, big key B, delete of a prefill key; images built one by one from descriptors for the cuts from op 1 on: every P cut, torn lengths 1..64, every 4096th, last 64 of each write, and the drop-all U image of every cut), plus EVERY sequence of length 1..2 over the 8-op crash alphabet {create K0, K1, {K0,K1}, {K3,K0,K1,K2,K0}, delete K0, delete K1, reopen, compact(partition of K0)} and of length 3 over its 6-op same-partition part (cuts of the last op only, so every (prefix, cut) is evaluated once). Per history every prefix of the syscall-level event list (P), every torn length 1..n-1 of the write in flight (T; all writes of the non-roll histories are < 4096 bytes: no subsampling), and for the sync classes (segment files 0000.., also under their .initializing name; index and index.compacting) the images with un-fsynced data dropped or its last write torn (U); directory operations in program order; images deduplicated by (content, acknowledged ops, op in flight). One evaluation = one (image, acknowledgement context) recovered in a fresh subprocess by CheckRecovery: real SeriesFile.Open on the image; SeriesID/HasSeries of every key, SeriesKey/IsDeleted of every id ever acknowledged; re-creation of every key of the domain in one call; read all; Close; Open (second restart); read all. Crash oracle: Open succeeds; every series acknowledged before the cut keeps (key, id) (SeriesID(key) = id, SeriesKey(id) = key, not deleted), every acknowledged (flushed) delete stays deleted; keys of a create in flight are absent or live with a never-acknowledged id whose SeriesKey is the key; the target of a delete in flight is live with its id or deleted; keys created after the recovery get ids never acknowledged before, distinct, and all of this is unchanged after the second restart. Non-trivial crash case = at least one series acknowledged before the cut.",
 		Assumptions: []string{
 			"SeriesCount is not judged (the statement does not define it; it counts deleted series until the next index compaction) — only recorded as an outcome class",
@@ -2456,11 +2464,15 @@ func TestCheck(t *testing.T) {
 			"the crash family runs first and may use at most half of the wall budget (30 s quick / 390 s thorough); beyond that it is capped (exhaustive:false), never an alarm",
 		},
 		Run: func(c *vlib.Ctx) {
-			runCrash(c)        // crash family first: of fixed size, so a budget cap always lands in the sequence families
-			runSchedules(t, c) // schedule part: small
+			runCrash(c)               // crash family first: of fixed size, so a budget cap always lands in the sequence families
+			runSchedules(t, c, false) // schedule part: small
+			if os.Getenv("C13_ONLY") == "sched" {
+				runSchedules(t, c, true)
+			}
 			if os.Getenv("C13_ONLY") == "crash" || os.Getenv("C13_ONLY") == "sched" {
 				return
 			}
+			defer runSchedules(t, c, true) // thorough: the all-locks phase, after the sequence families
 			base := vlib.Scratch("c13-")
 			defer os.RemoveAll(base)
 			var idx int64
